@@ -94,6 +94,13 @@ func (c *FnCtx) sev(sc *specCtx, e *SExpr) *Term {
 				return t
 			}
 		}
+		if e.Name == "$v" {
+			// the variable declared by the init statement of the for loop whose clause this is (rename-proof)
+			if v := c.loopInitVar[sc.site]; v != nil {
+				return c.readVar(sc.st, v, nil)
+			}
+			c.specErr(e, "$v: the loop has no init statement that declares one variable")
+		}
 		for _, l := range c.letDefs {
 			if l.Name == e.Name {
 				return c.sev(sc, l.Expr)
